@@ -124,14 +124,17 @@ theorem or_ (p : Program) (n : Nat) (a b : Expr) (s : State) :
     · simp only [M.bind_failed _ _ _ hf]
     · simp only [M.bind_ok _ _ _ _ hb, M.pure_apply]
 
-/-- **`??`**: the right operand is evaluated iff the left one is `nil`. -/
-theorem nilcoalesce (p : Program) (n : Nat) (ty : Ty) (a b : Expr) (s : State) :
+/-- **`??`** — partial.  Full statement (what the property says): the right operand is evaluated iff the
+left one is `nil`.  Proved: it is not evaluated for a boxed left value `some v`, and it is evaluated
+(once, after the left operand) for every other left value, in particular `nil`.  Missing: "a non-nil
+left value is always boxed" — false in the interpreter, see `nilcoalesce_witness`. -/
+theorem nilcoalesce_partial (p : Program) (n : Nat) (ty : Ty) (a b : Expr) (s : State) :
     let ra := eval p n a s
     let rb := eval p n b ra.st
     let r := eval p (n + 1) (.coalesce ty a b) s
     (ra.out.failed → r = ⟨ra.out.castErr, ra.st, ra.tr⟩) ∧
     (∀ v, ra.out = .ok (.some v) → r = ⟨.ok (box ty v), ra.st, ra.tr⟩) ∧
-    (ra.out = .ok .nil →
+    (∀ va, ra.out = .ok va → (∀ v, va ≠ .some v) →
       r.tr = ra.tr ++ rb.tr ∧ r.st = rb.st ∧
       (rb.out.failed → r.out = rb.out.castErr) ∧
       (∀ v, rb.out = .ok v → r.out = .ok (box ty v))) := by
@@ -139,20 +142,21 @@ theorem nilcoalesce (p : Program) (n : Nat) (ty : Ty) (a b : Expr) (s : State) :
   have e : eval p (n + 1) (.coalesce ty a b) = (eval p n a >>= fun va =>
       match va with
       | .some v => pure (box ty v)
-      | .nil => eval p n b >>= fun vb => pure (box ty vb)
-      | _ => M.internalErr .typeMismatch) := by
+      | _ => eval p n b >>= fun vb => pure (box ty vb)) := by
     simp only [eval]; rfl
   rw [e]
-  refine ⟨fun hf => ?_, fun v ha => ?_, fun ha => ?_⟩
+  refine ⟨fun hf => ?_, fun v ha => ?_, fun va ha hns => ?_⟩
   · rw [M.bind_failed _ _ _ hf]
   · rw [M.bind_ok _ _ _ _ ha]; simp only [M.pure_apply, List.append_nil]
   · rw [M.bind_ok _ _ _ _ ha]
-    dsimp only
     have fin := M.bind_fin (eval p n b) (fun vb => (pure (box ty vb) : M Value)) (eval p n a s).st
       (fun x s' => ⟨rfl, rfl⟩)
-    refine ⟨by rw [fin.1], fin.2, fun hf => ?_, fun v hb => ?_⟩
-    · simp only [M.bind_failed _ _ _ hf]
-    · simp only [M.bind_ok _ _ _ _ hb, M.pure_apply]
+    cases va
+    case some v => exact absurd rfl (hns v)
+    all_goals
+      refine ⟨by dsimp only; rw [fin.1], fin.2, fun hf => ?_, fun v hb => ?_⟩
+      · simp only [M.bind_failed _ _ _ hf]
+      · simp only [M.bind_ok _ _ _ _ hb, M.pure_apply]
 
 /-- **Conditional operator**: the test, then exactly the selected branch. -/
 theorem conditional (p : Program) (n : Nat) (c t e : Expr) (s : State) :
@@ -373,5 +377,18 @@ example : (eval prog 12 (.coalesce (.int .int) (.call "to" [.strLit "#1", .intLi
 -- `a[ti("#1", 0)] = ti("#2", 9)`: index before value; the hypotheses of `assign_swap` hold with a real write
 example : (exec prog 14 .void (.assign (.index (.var "a") (ci "#1" 0)) (.int .int) (ci "#2" 9))
     ⟨[("a", .array [.int .int 1])]⟩).tr = ["\"#1\"", "\"#2\""] := by decide
+
+/-- **Known finding `conditional-result-not-boxed`** (witness, proved about the model of the
+interpreter): in `(true ? 1 : nil) ?? ti("#2", 5)` the left operand evaluates to the non-nil value `1`
+(the interpreter does not box the result of a conditional expression into its optional type), yet the
+right operand is evaluated (its id is logged) and the result is `5`.  The VM returns `1` without
+evaluating the right operand. -/
+theorem nilcoalesce_witness :
+    let left : Expr := .cond (.boolLit true) (.intLit .int 1) .nilLit
+    (eval prog 12 left ⟨[]⟩).out = .ok (.int .int 1) ∧
+    (eval prog 13 (.coalesce (.int .int) left (ci "#2" 5)) ⟨[]⟩).tr = ["\"#2\""] ∧
+    (eval prog 13 (.coalesce (.int .int) left (ci "#2" 5)) ⟨[]⟩).out = .ok (.int .int 5) := by
+  dsimp only
+  exact ⟨rfl, by decide, rfl⟩
 
 end Verif.Properties.C52
